@@ -186,6 +186,29 @@ fn gen_line(rng: &mut Rng, streams: &[(String, u64)], storages: &[String], open:
     }
 }
 
+/// is this call refused for a reason C10 lists, judging by what the file shows right now?
+fn predicted_refusal(real: &Real, line: &str) -> bool {
+    let Some(comp) = real.comp.as_ref() else { return false };
+    let w: Vec<&str> = line.split(' ').collect();
+    let path = |a: &str| crate::names::dec(a);
+    let parent = |p: &str| -> String {
+        let t = p.trim_end_matches('/');
+        match t.rfind('/') { Some(0) | None => "/".to_string(), Some(i) => t[..i].to_string() }
+    };
+    match w.as_slice() {
+        ["mkdir", a] => { let p = path(a); comp.exists(&p) || !comp.is_storage(parent(&p)) }
+        ["put", a, _] => { let p = path(a); comp.is_storage(&p) || !comp.is_storage(parent(&p)) }
+        ["rm", a] => !comp.is_stream(path(a)),
+        ["rmall", a] => !comp.exists(path(a)),
+        ["get", a] | ["hopen", _, a] => !comp.is_stream(path(a)),
+        ["hseek", id, n] => match (id.parse::<u32>().ok().and_then(|i| real.handles.get(&i)), n.parse::<u64>()) {
+            (Some(h), Ok(n)) => n > h.len(),
+            _ => false,
+        },
+        _ => false,
+    }
+}
+
 pub enum CaseResult {
     Rejected,
     OpenPanicked,
@@ -242,8 +265,14 @@ pub fn run_case(image: Vec<u8>, seed: u64, given: Option<Vec<String>>, max_ops: 
             };
             p2.lock().unwrap().push(line.clone());
             let before = backing.snapshot();
+            // C10 speaks of calls that are *refused* (missing parent, wrong object type, existing name, non-empty
+            // storage, invalid path or name, out-of-range seek) — decided from what the file shows before the call.
+            // On a damaged file a call may also *fail* half-way with the same error kinds (a chain that ends early:
+            // "Cannot seek to .., chain length is .." is InvalidInput): that is a failure, not a refusal, and has
+            // changed bytes legitimately.  Judge only refusals that are predictable from the namespace.
+            let refusal_predicted = catch(|| predicted_refusal(&real, &line)).unwrap_or(false);
             let r = real.exec(&line);
-            if (r.starts_with("err notFound") || r.starts_with("err alreadyExists") || r.starts_with("err invalidInput")) && backing.snapshot() != before {
+            if refusal_predicted && (r.starts_with("err notFound") || r.starts_with("err alreadyExists") || r.starts_with("err invalidInput")) && backing.snapshot() != before {
                 let _ = tx.send(CaseResult::RefusedEffect { history: p2.lock().unwrap().clone(), message: r.clone() });
                 return;
             }
